@@ -462,3 +462,77 @@ pub fn regression_files(ctx: &Ctx) -> Vec<PathBuf> {
     v.sort();
     v
 }
+
+// ---------------------------------------------------------------------------------
+// libFuzzer campaigns (thorough tiers of C04 / C16 / C19)
+
+pub struct FuzzResult {
+    pub runs: u64,
+    pub crash: Option<Vec<u8>>,
+    pub skipped: Option<String>,
+}
+
+/// Runs `procs` libFuzzer processes of `target` with a fresh copy of the committed seed corpus,
+/// fixed `-runs` and `-seed` derived from VERIF_SEED.  A missing fuzz binary is reported as skipped.
+pub fn libfuzzer(ctx: &Ctx, target: &str, total_runs: u64, max_len: usize, procs: usize) -> FuzzResult {
+    let bin = ctx.verif_dir.join("fuzz/target/x86_64-unknown-linux-gnu/release").join(target);
+    if !bin.exists() {
+        return FuzzResult { runs: 0, crash: None, skipped: Some(format!("fuzz target {target} is not built ({})", bin.display())) };
+    }
+    let scratch = ctx.verif_dir.join("fuzz/scratch").join(format!("{}-{}-{}", target, std::process::id(), ctx.seed));
+    let _ = std::fs::remove_dir_all(&scratch);
+    let corpus_src = ctx.verif_dir.join("corpus").join(target);
+    let handles: Vec<_> = (0..procs)
+        .map(|i| {
+            let dir = scratch.join(format!("p{i}"));
+            let corpus = dir.join("corpus");
+            let arts = dir.join("artifacts");
+            let _ = std::fs::create_dir_all(&corpus);
+            let _ = std::fs::create_dir_all(&arts);
+            if let Ok(rd) = std::fs::read_dir(&corpus_src) {
+                for e in rd.flatten() {
+                    let _ = std::fs::copy(e.path(), corpus.join(e.file_name()));
+                }
+            }
+            let seed = (derive_seed(ctx.seed, target, i as u64) % 0xFFFF_FFFE) + 1;
+            let child = std::process::Command::new(&bin)
+                .arg(format!("-runs={}", total_runs / procs as u64))
+                .arg(format!("-seed={seed}"))
+                .arg("-len_control=0")
+                .arg(format!("-max_len={max_len}"))
+                .arg("-print_final_stats=1")
+                .arg("-timeout=60")
+                .arg(format!("-artifact_prefix={}/", arts.display()))
+                .arg(&corpus)
+                .stdout(std::process::Stdio::null())
+                .stderr(std::process::Stdio::piped())
+                .spawn();
+            (child, arts)
+        })
+        .collect();
+    let mut runs = 0u64;
+    let mut crash = None;
+    for (child, arts) in handles {
+        let Ok(child) = child else { continue };
+        if let Ok(out) = child.wait_with_output() {
+            let err = String::from_utf8_lossy(&out.stderr);
+            for line in err.lines() {
+                if let Some(v) = line.strip_prefix("stat::number_of_executed_units:") {
+                    runs += v.trim().parse::<u64>().unwrap_or(0);
+                }
+            }
+            if !out.status.success() && crash.is_none() {
+                if let Ok(rd) = std::fs::read_dir(&arts) {
+                    for e in rd.flatten() {
+                        if let Ok(bytes) = std::fs::read(e.path()) {
+                            crash = Some(bytes);
+                            break;
+                        }
+                    }
+                }
+            }
+        }
+    }
+    let _ = std::fs::remove_dir_all(&scratch);
+    FuzzResult { runs, crash, skipped: None }
+}
